@@ -122,7 +122,7 @@ func (o Options) Serialize() []byte {
 }
 
 func (o Options) TP_udhi() uint8 {
-	if val, exist := o[TAG_TP_udhi]; exist {
+	if val, exist := o[TAG_TP_udhi]; exist && len(val.value) > 0 {
 		return val.value[0]
 	}
 	return 0
